@@ -623,7 +623,7 @@ Proof.
   unfold len. rewrite firstn_length. pose proof (len_nonneg s). unfold len in *. lia.
 Qed.
 Lemma read_leaf_wf k b l :
-  read_leaf k b = Ok l -> kind_of l = k /\ (leaf_guard l = true -> wf_leaf l = true).
+  read_leaf k b = Ok l -> kind_of l = k /\ wf_leaf l = true /\ leaf_guard l = true.
 Proof.
   destruct k; cbn [read_leaf]; intros H.
   - dres1 H as v E. inversion H; subst. auto.
@@ -632,16 +632,16 @@ Proof.
   - dres1 H as v E. inversion H; subst. auto.
   - dres H as u s1 E. inversion H; subst. auto.
   - inversion H; subst. auto.
-  - injection H as <-. split; [reflexivity|]. intros _. cbn [wf_leaf]. apply Z.leb_le.
+  - injection H as <-. split; [reflexivity|]. split; [|reflexivity]. cbn [wf_leaf]. apply Z.leb_le.
     pose proof (read_upto_len 4 b ltac:(lia)) as Hl. exact Hl.
   - dres H as kind s1 E1. destruct (negb (memz kind model_section_dividers)) eqn:Ek; [discriminate|].
     apply negb_false_iff in Ek. dres H as sb s2 E2. dres H as sub s3 E3. inversion H; subst. clear H.
-    split; [reflexivity|]. cbn [wf_leaf]. rewrite Ek. cbn [andb].
+    split; [reflexivity|]. cbn [wf_leaf leaf_guard]. rewrite Ek. cbn [andb].
     destruct (is_readable 8 s1).
     + dres E2 as sg a Ea. destruct (negb (sg =? sig_8BIM)) eqn:Es; [discriminate|].
       dres E2 as bm a2 Eb. destruct (negb (memz bm model_blend_modes)) eqn:Em; [discriminate|].
       inversion E2; subst. cbn [option_map fst snd]. apply negb_false_iff in Es, Em. now rewrite Es, Em.
-    + inversion E2; subst. cbn [option_map]. destruct sub; [discriminate|reflexivity].
+    + inversion E2; subst. cbn [option_map is_some andb r_opt] in *. inversion E3; subst. auto.
   - dres H as v s1 E1. dres H as x y E2. destruct (memz v model_sheet_colors) eqn:Em; [|discriminate].
     inversion H; subst. auto.
   - dres H as v s1 E. inversion H; subst. auto.
@@ -653,11 +653,10 @@ Proof.
   - dres H as v s1 E. inversion H; subst. auto.
 Qed.
 Lemma leaf_resave k b l pad s n :
-  0 < pad -> read_leaf k b = Ok l -> leaf_guard l = true -> write_leaf pad l = Ok (s, n) ->
-  read_leaf k s = Ok l.
+  0 < pad -> read_leaf k b = Ok l -> write_leaf pad l = Ok (s, n) -> read_leaf k s = Ok l.
 Proof.
-  intros Hp Hr Hg Hw. destruct (read_leaf_wf _ _ _ Hr) as [Hk Hwf]. rewrite <- Hk.
-  exact (leaf_rt pad l s n Hp (Hwf Hg) Hw).
+  intros Hp Hr Hw. destruct (read_leaf_wf _ _ _ Hr) as (Hk & Hwf & _). rewrite <- Hk.
+  exact (leaf_rt pad l s n Hp Hwf Hw).
 Qed.
 
 (* ------------------------------------------------------------------ the theorems of Properties/C02.v *)
